@@ -17,8 +17,13 @@ LEVEL_TEXT = ("Theorems for every list of bytes: recv is total, consumes exactly
               "Instantiated with C01's layouts and decoder (Frame/Instantiate.v): the two models of recv agree on every stream, a delivered message is the decoding of exactly the "
               "frame's body, and every frame send writes is delivered with exactly the encoded field values (up to mnorm). Every run re-checks the proofs and compares the model with the real recv / Server.Handle.")
 LEVEL_NOTE = ("Trusted: Coq kernel + vm_compute; the hand model Frame/Model.v (tied by the differential only); FrameGen.v (registry read from messages.go, also compared "
-              "with the run-time registry); the body decoder is a parameter of the generic theorems and is instantiated with Codec/ (C01) in Frame/Instantiate.v; in the differential its verdict is taken from calling m.decode directly. "
-              "Go-level panic freedom and real peak allocation are observed by the harness, not proved (a panic or hang is reported as a violation).")
+              "with the run-time registry); the decoder: Codec/ (C01) via Frame/Instantiate.v, and C02_spec_is_source puts Codec/GenCheck (protocol table = what go2coq reads from messages.go) into "
+              "C02's cone, so a go2coq refusal of a decoder edit also fails C02. The differential's property predicate demands, for every observed complete frame, the verdict (deliver / reject and "
+              "the reply tag) of the protocol table's decoder on those bytes -- not an oracle taken from the implementation (the implementation's own m.decode verdicts are additionally compared with the table). "
+              "'Never panics' holds BY CONSTRUCTION in the model (no panic outcome, total functions): it is not a theorem about the Go code; its observed half is recover() around every recv call plus the "
+              "fuzz-style loop (quick: seconds; thorough: ~150 s recv + ~50 s live Server.Handle), a panic/hang/process crash being a violation with the stream as replay. "
+              "Allocation IS observed: runtime TotalAlloc delta per recv call (min of 3) on hostile counts, valid frames and refused size fields, required <= 64 x accepted frame size + 64 KiB "
+              "(64 KiB for a refused header); real peak RSS is not measured. The harness is white box (recv, msgDotLRegistry, message structs): renaming those breaks its compilation = reported as a violation.")
 DESIGN_REF = "6/C02"
 ASSUMPTIONS = [
     "io.ReadAtLeast, io.Copy(ioutil.Discard, io.LimitReader) and vecnet.Buffers.ReadFrom obtain exactly the requested bytes or fail (C17 proves this of the vecnet model for every segmentation)",
@@ -89,6 +94,9 @@ def to_case(o):
     if k == "vec":
         conts = "[" + "; ".join(blist(c) for c in (o.get("contents") or [])) + "]"
         return "CVec %d %s %s %s %d %d %s" % (o["mode"], nlist(o["bufs"]), blist(o["stream"]), script(o.get("script")), o["n"], o["err"], conts)
+    if k == "client":
+        pend = "[" + "; ".join("(%d, %d)" % (x["tag"], x["typ"]) for x in (o.get("pending") or [])) + "]"
+        return "CClient %d %d%%nat %s %s %s" % (o["msize"], o["max"], blist(o["stream"]), pend, events(o["events"]))
     if k == "alloc":
         return "CAlloc %d %s %d" % (o["msize"], blist(o["stream"]), o["alloc"])
     if k == "fuzz":
@@ -136,6 +144,64 @@ def evaluate(ctx, pid, obs, what):
     return nm
 
 
+def behaviour_class(o):
+    """What counts as a distinct non-trivial evaluation: the behaviour exercised, not the bytes.
+    loop: (what, type byte of the first frame, size-field relation to msize/4MiB/length, sequence of outcome kinds
+    with the tag class of rejections, segmented or not); session: (path, sorted reply (type, NOTAG?) list);
+    alloc: (what, type byte, log2 bucket of the allocation); vec: (mode, number of buffers, result, stream vs total)."""
+    k = o["kind"]
+    if k == "loop":
+        st = o.get("stream") or []
+        typ = st[4] if len(st) > 4 else -1
+        rel = "short"
+        if len(st) >= 4:
+            size = st[0] | st[1] << 8 | st[2] << 16 | st[3] << 24
+            ms = o["msize"]
+            rel = ("lt7" if size < 7 else "gt4M" if size > 4194304 else "gtms" if size > ms else "eqms" if size == ms else "ok") + \
+                  ("/trunc" if size > len(st) else "/exact" if size == len(st) else "/more")
+        evs = tuple((e["kind"], "notag" if e["kind"] == "reject" and e["tag"] == 65535 else "") for e in (o.get("events") or []))
+        return (k, o.get("what"), o.get("mode", 0), typ, rel, evs, bool(o.get("script")))
+    if k == "session":
+        return (k, o["path"], tuple(sorted((r["typ"], r["tag"] == 65535, r.get("errno", 0)) for r in (o.get("replies") or []))), o["hang"])
+    if k == "alloc":
+        st = o["stream"]
+        return (k, o.get("what"), st[4] if len(st) > 4 else -1, int(o["alloc"]).bit_length())
+    if k == "vec":
+        tot = sum(o["bufs"])
+        return (k, o["mode"], len(o["bufs"]), o["err"], "short" if len(o["stream"]) < tot else "exact" if len(o["stream"]) == tot else "more",
+                bool(o.get("script")), 0 in o["bufs"])
+    if k == "big":
+        return (k, o["ev"], o["size"] > o["msize"], o["size"] > 4194304, o["avail"] >= o["size"])
+    return (k, o.get("what"))
+
+
+def pick_samples(obs):
+    """Representative cases: one per interesting behaviour, not the first records."""
+    want = [
+        ("resynchronisation: rejected frame between served ones",
+         lambda o: o["kind"] == "loop" and len([e for e in o.get("events") or [] if e["kind"] == "reject"]) >= 1
+         and len([e for e in o.get("events") or [] if e["kind"] == "deliver"]) >= 2),
+        ("inconsistent count rejected", lambda o: o.get("what") == "badcount" and (o.get("events") or [{}])[0].get("kind") == "reject"),
+        ("refused size field", lambda o: o.get("what") == "sizefield" and (o.get("events") or [{}])[0].get("kind") == "conn" and (o.get("events") or [{}])[0].get("consumed") == 7),
+        ("hostile count: allocation", lambda o: o["kind"] == "alloc" and o.get("what") == "hostile"),
+        ("segmented stream", lambda o: o["kind"] == "loop" and o.get("script") and len(o.get("events") or []) >= 3),
+        ("socket, gated partial fill", lambda o: o.get("what") == "socket-gated"),
+        ("session with NOTAG Rlerror", lambda o: o["kind"] == "session" and any(r["tag"] == 65535 for r in o.get("replies") or [])),
+        ("vecnet buffers", lambda o: o["kind"] == "vec" and len(o["bufs"]) >= 2 and o.get("script")),
+        ("fuzz loop", lambda o: o["kind"] == "fuzz"),
+    ]
+    out = []
+    for label, pred in want:
+        for o in obs:
+            try:
+                if pred(o):
+                    out.append({"why": label, "case": dict((k, (v if not isinstance(v, list) or len(v) < 60 else v[:60] + ["..."])) for k, v in o.items() if k != "oracle")})
+                    break
+            except (KeyError, IndexError, TypeError):
+                continue
+    return out
+
+
 def summarise(ctx, obs, nm, rule):
     kinds = {}
     evk = {}
@@ -144,15 +210,16 @@ def summarise(ctx, obs, nm, rule):
         kinds[key] = kinds.get(key, 0) + 1
         for e in o.get("events") or []:
             evk[e["kind"]] = evk.get(e["kind"], 0) + 1
-    distinct = len({str(sorted((k, str(v)) for k, v in o.items() if k != "id")) for o in obs})
-    samples = [o for o in obs if o["kind"] != "registry"][:1]
-    samples += [o for o in obs if o.get("what") in ("sequence", "mutant", "cut")][:1] + [o for o in obs if o["kind"] in ("session", "vec")][:1]
+    classes = {behaviour_class(o) for o in obs}
     ctx.coverage.update({
         "evaluations": len(obs),
-        "distinct_nontrivial": distinct,
+        "distinct_nontrivial": len(classes),
+        "distinct_rule": behaviour_class.__doc__,
+        "distinct_records": len({str(sorted((k, str(v)) for k, v in o.items() if k != "id")) for o in obs}),
         "rule": rule,
-        "correspondence": {"cases": len(obs), "mismatches": nm, "by_kind": kinds, "recv_outcomes": evk},
-        "samples": [dict((k, (v if not isinstance(v, list) or len(v) < 80 else v[:80] + ["..."])) for k, v in s.items()) for s in samples],
+        "correspondence": {"cases": len(obs), "mismatches": nm, "by_kind": kinds, "recv_outcomes": evk,
+                           "fuzz": [dict((k, v) for k, v in o.items() if k != "id") for o in obs if o["kind"] == "fuzz"]},
+        "samples": pick_samples(obs),
     })
 
 
@@ -184,8 +251,8 @@ def run(ctx):
 
 
 def search(ctx):
-    if ctx.thorough:
-        return
+    if ctx.thorough or all(b.get("kind") in ("obligation", "translator", "forbidden-vernacular") for b in ctx.broken):
+        return  # a broken proof / refused table is not made more concrete by a longer harness run
     ctx.tier = "thorough"
     ctx.thorough = True
     run(ctx)
